@@ -101,7 +101,7 @@ def gen_request(rng, last=False):
 	if has_body and r.version == (1, 1) and rng.random() < 0.5:
 		r.framing = 'chunked'
 		if rng.random() < 0.4:
-			r.trailers = [(rng.choice([b'X-Checksum', b'X-T2', b'Expires']), rng.choice([b'abc', b'1', b'x y'])) for _ in range(rng.randrange(1, 3))]
+			r.trailers = [(rng.choice([b'X-Checksum', b'X-T2', b'Expires']), rng.choice([b'abc', b'1', b'x y', b''])) for _ in range(rng.randrange(1, 3))]
 			names = []
 			for n, _v in r.trailers:
 				if n not in names:
@@ -143,7 +143,7 @@ def gen_response(rng):
 	if has_body and r.version == (1, 1) and rng.random() < 0.5:
 		r.framing = 'chunked'
 		if rng.random() < 0.3:
-			r.trailers = [(b'X-Trailer', rng.choice([b'abc', b'1']))]
+			r.trailers = [(b'X-Trailer', rng.choice([b'abc', b'1', b'']))]
 			fields.append((b'Trailer', b'X-Trailer'))
 		fields.append((b'Transfer-Encoding', rng.choice([b'chunked', b'CHUNKED'])))
 		wire_body, _parts = chunked(rng, r.body, r.trailers)
